@@ -515,6 +515,7 @@ func (e *Engine) lemmaObligations(prop string) ([]*Obligation, string) {
 
 var propLevels = map[string]propLevel{
 	"C02": {"other", "per-function proof obligations (writer productions, Omit, header and block layout) discharged by SMT; their composition into 'an independent reader decodes identically' is a written argument (DESIGN.md), not machine checked"},
+	"C12": {"other", "per-function proof obligations of a lock/ownership discipline (guards on the shared maps, lock balance, sync usage rules) discharged by SMT for all inputs and paths; interleavings are not explored, race freedom follows from the discipline by sync's contract (assumed)"},
 	"C03": {"other", "per-function proof obligations (reader productions for every legal serialisation choice) discharged by SMT; the induction over codec trees to 'the datum's values' is a written argument (DESIGN.md), not machine checked"},
 }
 
